@@ -485,6 +485,135 @@ Proof.
   apply G. unfold DInv. cbn. congruence.
 Qed.
 
+(* ------------------------------------------------------------------------------------------ *)
+(* the scheduler's wake-up is not lost: every entry of the schedule is covered by the scheduler's
+   event or by the timeout it is sleeping on *)
+
+Fixpoint tsorted (l : list (Z * Z)) : Prop :=
+  match l with [] => True | x :: r => (forall y, In y r -> fst x <= fst y) /\ tsorted r end.
+
+Lemma tsorted_sins e l : tsorted l -> tsorted (sins e l).
+Proof.
+  induction l as [|x r IH]; cbn; intro T; [split; [intros y []|exact I]|].
+  destruct T as [T1 T2]. destruct (sle x e) eqn:E; cbn.
+  - split; [|auto]. intros y Y. apply In_sins in Y as [->|Y]; [|auto].
+    unfold sle in E. apply orb_true_iff in E as [E|E]; [apply Z.ltb_lt in E; lia|].
+    apply andb_true_iff in E as [E _]. apply Z.eqb_eq in E. lia.
+  - assert (G : fst e <= fst x).
+    { unfold sle in E. apply orb_false_iff in E as [E1 E2]. apply Z.ltb_ge in E1. exact E1. }
+    split; [|split; auto]. intros y [<-|Y]; [exact G|]. specialize (T1 y Y). lia.
+Qed.
+
+Lemma tsorted_filter P l : tsorted l -> tsorted (filter P l).
+Proof.
+  induction l as [|x r IH]; cbn; intro T; [auto|]. destruct T as [T1 T2].
+  destruct (P x); cbn; [split|]; auto. intros y Y. apply filter_In in Y as [Y _]. auto.
+Qed.
+
+Definition covered (S : bsys) (e : Z * Z) : Prop :=
+  sev S = true \/ kpc_ S = KInit \/ exists d, kpc_ S = KWaitFor d /\ d <= fst e.
+
+Definition KInv (S : bsys) : Prop := tsorted (sched S) /\ forall e, In e (sched S) -> covered S e.
+
+Lemma add_sched_kinv S t i : KInv S -> KInv (add_sched S t i).
+Proof.
+  intros [T C]. unfold add_sched. destruct (sched S) as [|h r] eqn:ES.
+  - split; cbn; rewrite ES; cbn; [split; [intros y []|exact I]|]. intros e _. left. reflexivity.
+  - destruct (fst h >? t) eqn:E.
+    + split; cbn; rewrite ES; [apply (tsorted_sins (t, i) (h :: r)); exact T|].
+      intros e _. left. reflexivity.
+    + rewrite Z.gtb_ltb in E. apply Z.ltb_ge in E.
+      split; cbn; rewrite ES; [apply (tsorted_sins (t, i) (h :: r)); exact T|].
+      intros e Y. apply (In_sins e (t, i) (h :: r)) in Y as [->|Y].
+      * destruct (C h (or_introl eq_refl)) as [A|[A|[d [A1 A2]]]]; [left; exact A|right; left; exact A|].
+        right; right. exists d. split; [exact A1|cbn; lia].
+      * apply C. exact Y.
+Qed.
+
+Lemma KInv_frame S S' :
+  sched S' = sched S -> sev S' = sev S -> kpc_ S' = kpc_ S -> KInv S -> KInv S'.
+Proof. intros E1 E2 E3 [T C]. unfold KInv, covered. rewrite E1, E2, E3. auto. Qed.
+
+Lemma get_fb_kframe c S i ct b f done S1 :
+  get_fb c S i ct = (b, f, done, S1) -> sched S1 = sched S /\ sev S1 = sev S /\ kpc_ S1 = kpc_ S.
+Proof.
+  unfold get_fb. intro G.
+  destruct (blast S i) as [b0|]; [destruct (fst b0 =? 0)|];
+    repeat match type of G with context [if ?x then _ else _] => destruct x end;
+    inversion G; subst; cbn; auto.
+Qed.
+
+Lemma pgroup_kinv c : forall g S ct lst common S' res,
+  KInv S -> pgroup c S ct lst common g = (S', res) -> KInv S'.
+Proof.
+  induction g as [|i r IH]; intros S ct lst common S' res K H.
+  - cbn in H. inversion H; subst. exact K.
+  - cbn [pgroup] in H. destruct (get_fb c S i ct) as [[[b f] done] S1] eqn:G.
+    apply get_fb_kframe in G as (G1 & G2 & G3).
+    assert (K1 : KInv S1) by (eapply KInv_frame; eauto).
+    match type of H with (if ?sk then _ else _) = _ => destruct sk end; [eapply IH; eauto|].
+    set (S2 := if done then S1 else add_sched S1 (ct + f) i) in *.
+    assert (K2 : KInv S2) by (unfold S2; destruct done; [exact K1|apply add_sched_kinv; exact K1]).
+    clearbody S2.
+    match type of H with (if ?cnd then _ else _) = _ => destruct cnd end.
+    + eapply IH; [|exact H]. eapply KInv_frame; [| | |exact K2]; reflexivity.
+    + inversion H; subst. eapply KInv_frame; [| | |exact K2]; reflexivity.
+Qed.
+
+Lemma run_groups_kinv c : forall gs S now, KInv S -> KInv (fst (run_groups c S now gs)).
+Proof.
+  induction gs as [|g r IH]; intros S now K; cbn [run_groups].
+  - unfold finish. destruct (fixedc c); (eapply KInv_frame; [| | |exact K]; reflexivity).
+  - destruct (pgroup c S now [] None g) as [S' res] eqn:G.
+    apply pgroup_kinv in G; [|exact K].
+    destruct res; [apply IH; exact G|].
+    cbn [fst]. eapply KInv_frame; [| | |exact G]; reflexivity.
+Qed.
+
+Lemma bstep_kinv c S e : KInv S -> KInv (bstep c S e).
+Proof.
+  intro K. destruct e as [now ev]. unfold bstep. cbn [fst snd]. destruct ev.
+  - destruct K as [T C]. unfold set_fade. split; cbn.
+    + apply tsorted_filter. exact T.
+    + intros e Y. apply filter_In in Y as [Y _]. apply C. exact Y.
+  - unfold sched_step. destruct (sched_enabled S now); [|exact K].
+    destruct K as [T C]. split; cbn.
+    + apply tsorted_filter. exact T.
+    + intros e Y. right; right.
+      pose proof (tsorted_filter (fun e0 : Z * Z => negb (fst e0 <=? now)) _ T) as TF.
+      destruct (filter (fun e0 : Z * Z => negb (fst e0 <=? now)) (sched S)) as [|h r]; [destruct Y|].
+      exists (fst h). split; [reflexivity|]. destruct Y as [<-|Y]; [lia|]. destruct TF as [TF _]. apply TF. exact Y.
+  - unfold send_step. destruct (spc_ S) as [u|k].
+    + destruct ((u <=? now) && dev S); [|exact K].
+      apply run_groups_kinv. destruct (fixedc c); (eapply KInv_frame; [| | |exact K]; reflexivity).
+    + destruct (pend k) as [[[i b] f]|].
+      * destruct (pgroup c (set_hw S (upd (hw S) i b)) now [(i, b, f)] (Some f) (grest k)) as [S' res] eqn:G.
+        apply pgroup_kinv in G; [|eapply KInv_frame; [| | |exact K]; reflexivity].
+        destruct res; [apply run_groups_kinv; exact G|].
+        cbn [fst]. eapply KInv_frame; [| | |exact G]; reflexivity.
+      * apply run_groups_kinv. exact K.
+  - exact K.
+Qed.
+
+Lemma brun_kinv c : forall h S0, KInv S0 -> KInv (brun c S0 h).
+Proof.
+  induction h as [|x r IH]; intros S0 K0; cbn; [exact K0|]. apply IH. apply bstep_kinv. exact K0.
+Qed.
+
+(* for every history (fixed or not): an entry of the schedule that is due makes the scheduler runnable *)
+Lemma batch_due_entry_wakes_scheduler_l : forall c h e now,
+  let S := brun c binit h in In e (sched S) -> fst e <= now -> sched_enabled S now = true.
+Proof.
+  intros c h e now S Y D.
+  assert (K : KInv S).
+  { unfold S. apply brun_kinv. split; cbn; [exact I|]. intros ? []. }
+  destruct K as [_ C]. destruct (C e Y) as [A|[A|[d [A1 A2]]]]; unfold sched_enabled.
+  - destruct (kpc_ S); [reflexivity|exact A|rewrite A; reflexivity].
+  - rewrite A. reflexivity.
+  - rewrite A1. apply orb_true_iff. right. apply Z.leb_le. lia.
+Qed.
+
+
 (* a light whose brightness the hardware already has (sent earlier, realised before now) is not
    sent again when it is looked at on its own / first in its group *)
 Lemma unchanged_light_not_resent_l : forall c S ct i b t,
@@ -543,3 +672,8 @@ Example ex_not_resent :
   let S := brun c_fixed binit ex_bhist in
   blast S 1 = Some (qz 255) /\ pgroup c_fixed S 2000 [] None [1] = (S, GDone).
 Proof. split; [vm_compute; reflexivity|]. apply (unchanged_light_not_resent_l _ _ _ _ (qz 255) 1825); vm_compute; congruence. Qed.
+
+Example ex_sched_wakes :
+  let S := brun c_fixed binit (firstn 7 ex_bhist) in
+  sched S = [(1375, 1)] /\ kpc_ S = KWaitFor 1375 /\ sched_enabled S 1374 = false /\ sched_enabled S 1375 = true.
+Proof. vm_compute. auto. Qed.
